@@ -166,7 +166,7 @@ LeafWhys(c, lf) ==
     IF res.kind = "ok" /\ res.str # Concat(res.toks, 1) THEN "P:C05:String()-is-not-the-concatenation-of-token-values" ELSE "ok",
     IF res.kind = "ok" /\ ~SameFloat(res.ent, c.ent) THEN "P:C06:Password.Entropy-differs-from-recipe-Entropy()" ELSE "ok",
     \* the choices of this very run have probability 1/pp (pp = product of the bounds of all its draws) and determine the password
-    IF res.kind = "ok" /\ lf.unann = 0 /\ lf.left = 0 /\ res.ent.k = "fin" /\ lf.pp # <<>> /\ ~EntropyNotAbove(res.ent, lf.pp, 2)
+    IF lf.ppc = 1 /\ res.kind = "ok" /\ lf.unann = 0 /\ lf.left = 0 /\ res.ent.k = "fin" /\ lf.pp # <<>> /\ ~EntropyNotAbove(res.ent, lf.pp, 2)
       THEN "P:C06:the-choices-that-produced-this-password-are-likelier-than-2^-Entropy" ELSE "ok",
     \* Process!LimitsAreTheCallers: MaxTrials / MaxFailRate are the caller's; a call that writes them (even to put them back later)
     \* races with every concurrent call that reads them, and runs itself under limits nobody configured
